@@ -14,6 +14,7 @@ import PgProofs.C05Nested
 import PgProofs.C05Paths
 import PgProofs.C05Typed
 import PgProofs.C05Sig
+import PgProofs.C05Handles
 namespace Pg.C05
 
 /-! ## T-SIG: value specs can be rebuilt from what `to_json` emits -/
@@ -711,6 +712,44 @@ theorem C05_pinned_append :
     (run FsCfg.pinned [] [.seqWrite "/mem/s".toList .a [['3']]]).2 = [.err .notFound] ∧
     (run FsCfg.patched [] [.seqWrite "/mem/s".toList .w [['1'], ['2']], .seqWrite "/mem/s".toList .a [['3']],
                           .seqRead "/mem/s".toList]).2 = [.unit, .unit, .records [['1'], ['2'], ['3']]] := by
+  decide
+
+/-! ## Open handles as state (F130) -/
+
+/-- "A reader that has just been opened reads the whole file" — whatever other handles exist
+(open, closed or stale) and wherever they are positioned. This is what `pg.load` / `readfile` /
+`LineSequence` rely on. -/
+def C05_handles_Full (cfg : HCfg) : Prop :=
+  ∀ (s s1 : HSt) (p : Path) (h : Nat), hOpen cfg s p .r = .ok (s1, h) →
+    (hRead cfg s1 h none).2 = hContent s1 h
+
+/-- It holds for every state when each handle has its own position (fixes/C05-F130.patch). -/
+theorem C05_handles_per_handle (cfg : HCfg) (hph : cfg.perHandle = true) : C05_handles_Full cfg :=
+  fun s s1 p h hop => fresh_reader_reads_all cfg hph s s1 p h hop
+
+/-- The state after `pg.save(v, '/mem/a')`, `h = pg.io.open('/mem/a')`, `h.read()` (never closed). -/
+def afterUnclosedRead (cfg : HCfg) : HSt :=
+  (hRun cfg HSt.empty [.save "/mem/a".toList "[1]".toList, .hopen "/mem/a".toList .r, .hread 1 none]).1
+
+/-- F130: on the tree as it is (all handles of a file share one position) it fails — after an
+unclosed read the next reader starts at the end and reads nothing. -/
+theorem C05_handles_counterexample : ¬ C05_handles_Full HCfg.head := by
+  intro hfull
+  have hop : hOpen HCfg.head (afterUnclosedRead HCfg.head) "/mem/a".toList .r =
+      .ok ((hStep HCfg.head (afterUnclosedRead HCfg.head) (.hopen "/mem/a".toList .r)).1, 2) := by rfl
+  have := hfull _ _ _ _ hop
+  revert this
+  decide
+
+/-- The same history, end to end: `load` after the unclosed read returns the empty string on the
+tree as it is, and the saved text with per-handle positions. -/
+theorem C05_handles_history :
+    (hRun HCfg.head HSt.empty [.save "/mem/a".toList "[1]".toList, .hopen "/mem/a".toList .r,
+        .hread 1 none, .load "/mem/a".toList]).2 =
+      [.unit, .handle 1, .content "[1]".toList, .content []] ∧
+    (hRun HCfg.fixed HSt.empty [.save "/mem/a".toList "[1]".toList, .hopen "/mem/a".toList .r,
+        .hread 1 none, .load "/mem/a".toList]).2 =
+      [.unit, .handle 1, .content "[1]".toList, .content "[1]".toList] := by
   decide
 
 /-! ## Non-vacuity -/
